@@ -26,7 +26,7 @@ from pyvc.lib import c10_models as cm
 from pyvc.lib.c10_models import CT, AT, AList, rterm, ip
 from .common import registry, forall, implies, AND, OR, NOT
 
-LEVEL = "proof"
+LEVEL = "other"  # open known findings: some obligations are refuted on the current tree, so "every obligation discharged" does not hold (see known_findings.jsonl)
 # the runner stores a printed sample of every goal; z3's Python pretty-printer is slow on the large real-arithmetic terms of this
 # property, so printing (only printing - terms, SMT-LIB text and hashes are unaffected) is abbreviated
 z3.set_option(max_depth=7, max_args=10, max_lines=14, max_width=160)
